@@ -1,0 +1,200 @@
+//! Read-only verification hooks (feature `verif-hooks`, off by default).
+//!
+//! Nothing in this module changes the behaviour of the collector: it only exposes
+//! internal state to an external simulator and counts how often some branches are taken.
+
+use alloc::vec::Vec;
+use core::cell::Cell;
+use core::sync::atomic::{AtomicUsize, Ordering};
+
+use crate::cc::CcBox;
+use crate::state::try_state;
+use crate::{Cc, Trace, POSSIBLE_CYCLES};
+
+/// Snapshot of the hidden per-object state.
+#[derive(Copy, Clone, Debug, PartialEq, Eq)]
+pub struct ObjSnap {
+    /// Address of the object box.
+    pub box_addr: usize,
+    /// Reference counter.
+    pub counter: u16,
+    /// Tracing counter (raw 14 bits, `0x3FFF` means "dropped").
+    pub tracing_counter: u16,
+    /// 0 = non marked, 1 = in possible cycles, 2 = in list, 3 = in queue.
+    pub mark: u8,
+    /// Finalized flag (always `false` without the `finalization` feature).
+    pub finalized: bool,
+    /// Side record allocated (always `false` without the `weak-ptrs` feature).
+    pub has_side_record: bool,
+}
+
+fn snap_of(ptr: core::ptr::NonNull<CcBox<()>>) -> ObjSnap {
+    let cm = unsafe { ptr.as_ref() }.counter_marker();
+    let (tc, c) = cm.raw();
+    ObjSnap {
+        box_addr: ptr.as_ptr() as usize,
+        counter: c & 0x3FFF,
+        tracing_counter: tc & 0x3FFF,
+        mark: (tc >> 14) as u8,
+        finalized: (c & 0x4000) != 0,
+        has_side_record: (c & 0x8000) != 0,
+    }
+}
+
+/// Returns the hidden state of the allocation pointed by `cc`.
+pub fn snapshot<T: ?Sized + Trace>(cc: &Cc<T>) -> ObjSnap {
+    snap_of(cc.verif_inner_ptr())
+}
+
+/// Result of a walk of the buffer of possible cycle roots.
+#[derive(Clone, Debug)]
+pub struct BufWalk {
+    /// The cached size.
+    pub cached_size: usize,
+    /// `true` when every `prev` link mirrors the `next` link of its predecessor.
+    pub links_ok: bool,
+    /// The members, first to last.
+    pub members: Vec<ObjSnap>,
+}
+
+/// Walks the buffer. Returns `None` if the buffer is no longer accessible (thread teardown).
+pub fn buffer_walk(limit: usize) -> Option<BufWalk> {
+    POSSIBLE_CYCLES
+        .try_with(|pc| {
+            let mut members = Vec::new();
+            let mut links_ok = true;
+            let mut prev: Option<core::ptr::NonNull<CcBox<()>>> = None;
+            let mut cur = pc.first();
+            while let Some(ptr) = cur {
+                if members.len() >= limit {
+                    links_ok = false;
+                    break;
+                }
+                unsafe {
+                    if *ptr.as_ref().get_prev() != prev {
+                        links_ok = false;
+                    }
+                    members.push(snap_of(ptr));
+                    prev = Some(ptr);
+                    cur = *ptr.as_ref().get_next();
+                }
+            }
+            BufWalk {
+                cached_size: pc.size(),
+                links_ok,
+                members,
+            }
+        })
+        .ok()
+}
+
+/// Current byte threshold of the automatic collection policy.
+#[cfg(feature = "auto-collect")]
+pub fn bytes_threshold() -> Option<usize> {
+    crate::config::config(|c| c.verif_bytes_threshold()).ok()
+}
+
+/// `(collecting, finalizing, dropping)`.
+pub fn flags() -> Option<(bool, bool, bool)> {
+    try_state(|s| {
+        #[cfg(feature = "finalization")]
+        let f = s.is_finalizing();
+        #[cfg(not(feature = "finalization"))]
+        let f = false;
+        (s.is_collecting(), f, s.is_dropping())
+    })
+    .ok()
+}
+
+/// Allocation events reported to the observer.
+#[derive(Copy, Clone, Debug, PartialEq, Eq)]
+#[repr(u8)]
+pub enum AllocEvent {
+    /// A managed object box was allocated.
+    BoxAlloc = 0,
+    /// A managed object box is about to be released.
+    BoxDealloc = 1,
+    /// A side allocation (weak side record) was allocated.
+    OtherAlloc = 2,
+    /// A side allocation is about to be released.
+    OtherDealloc = 3,
+}
+
+/// Observer signature: `(event, address, size, align)`.
+pub type Observer = fn(AllocEvent, usize, usize, usize);
+
+static OBSERVER: AtomicUsize = AtomicUsize::new(0);
+
+/// Installs (or removes) the process-wide allocation observer.
+pub fn set_alloc_observer(obs: Option<Observer>) {
+    OBSERVER.store(obs.map_or(0, |f| f as usize), Ordering::SeqCst);
+}
+
+#[inline]
+pub(crate) fn observe(ev: AllocEvent, addr: usize, size: usize, align: usize) {
+    let raw = OBSERVER.load(Ordering::Relaxed);
+    if raw != 0 {
+        let f: Observer = unsafe { core::mem::transmute::<usize, Observer>(raw) };
+        f(ev, addr, size, align);
+    }
+}
+
+/// Number of probe counters.
+pub const N_PROBES: usize = 32;
+
+/// Names of the probes, by index.
+pub const PROBE_NAMES: [&str; N_PROBES] = [
+    "drop_last_owner",            // 0
+    "drop_buffers",               // 1
+    "drop_in_list_decrement",     // 2
+    "drop_resurrected",           // 3
+    "collect_started",            // 4
+    "collect_pass",               // 5
+    "collect_pass_cap_reached",   // 6
+    "pass_finalized_rebuffer",    // 7
+    "pass_deallocated",           // 8
+    "append_to_nonempty_buffer",  // 9
+    "counting_hit_buffered",      // 10
+    "counting_enqueue",           // 11
+    "counting_moved_to_non_root", // 12
+    "root_tracing_rescued",       // 13
+    "side_record_freed_by_weak",  // 14
+    "side_record_freed_by_box",   // 15
+    "side_record_kept_for_weak",  // 16
+    "threshold_doubled",          // 17
+    "threshold_halved",           // 18
+    "threshold_floored",          // 19
+    "buffer_tls_gone",            // 20
+    "try_unwrap_ok",              // 21
+    "try_unwrap_refused_state",   // 22
+    "upgrade_refused_dropping",   // 23
+    "upgrade_refused_dropped",    // 24
+    "new_cyclic_panic_guard",     // 25
+    "auto_collect_triggered",     // 26
+    "buffer_teardown_nonempty",   // 27
+    "reserved28",
+    "reserved29",
+    "reserved30",
+    "reserved31",
+];
+
+crate::utils::rust_cc_thread_local! {
+    static PROBES: [Cell<u64>; N_PROBES] = const { [const { Cell::new(0) }; N_PROBES] };
+}
+
+/// Bumps probe `id`.
+#[inline]
+pub(crate) fn probe(id: usize) {
+    let _ = PROBES.try_with(|p| p[id].set(p[id].get() + 1));
+}
+
+/// Returns and resets the probe counters of the current thread.
+pub fn take_probes() -> [u64; N_PROBES] {
+    let mut out = [0u64; N_PROBES];
+    let _ = PROBES.try_with(|p| {
+        for i in 0..N_PROBES {
+            out[i] = p[i].replace(0);
+        }
+    });
+    out
+}
